@@ -86,14 +86,15 @@ type Alt struct {
 }
 
 type Exec struct {
-	C      *sym.Ctx
-	S      *smt.Solver
-	Prog   *ssa.Program
-	Pkg    *ssa.Package
-	fninfo map[*ssa.Function]*fnInfo
-	intr   map[string]Intrinsic
-	init   *State
-	Res    *RunResult
+	SchedDebug bool // record source positions of the turn-taking points of a schedule (input __schedule_at)
+	C          *sym.Ctx
+	S          *smt.Solver
+	Prog       *ssa.Program
+	Pkg        *ssa.Package
+	fninfo     map[*ssa.Function]*fnInfo
+	intr       map[string]Intrinsic
+	init       *State
+	Res        *RunResult
 
 	MaxSteps    int
 	MaxPaths    int
@@ -781,6 +782,9 @@ func (e *Exec) runLoop(st *State, isInit bool) string {
 			}
 			return EndReturn
 		}
+		if st.sched != nil && e.schedBoundary(st) {
+			continue
+		}
 		st.steps++
 		if st.steps > e.MaxSteps {
 			return EndLimit
@@ -1055,6 +1059,11 @@ func (e *Exec) step(st *State, fr *Frame, in ssa.Instruction) string {
 			e.runtimePanic(st, "send on closed channel")
 			return ""
 		}
+		if len(cv.Q) >= cv.Cap && st.sched != nil {
+			// interleaved mode: another thread may make room
+			e.schedBlockOnChan(st)
+			return ""
+		}
 		if len(cv.Q) >= cv.Cap {
 			// sequential execution: nobody will ever receive
 			st.Covers = append(st.Covers, "blocked-send")
@@ -1063,6 +1072,7 @@ func (e *Exec) step(st *State, fr *Frame, in ssa.Instruction) string {
 		}
 		nq := append(append([]Value{}, cv.Q...), v)
 		st.setObj(ch.Obj, &ChanV{Q: nq, Cap: cv.Cap})
+		e.schedChanOp(st)
 		fr.idx++
 	default:
 		v, ok := in.(ssa.Value)
@@ -1252,12 +1262,18 @@ func (e *Exec) unop(st *State, fr *Frame, x *ssa.UnOp) (Value, bool) {
 				}
 				return z, false
 			}
+			if st.sched != nil {
+				// interleaved mode: another thread may send
+				e.schedBlockOnChan(st)
+				return nil, true
+			}
 			st.Covers = append(st.Covers, "blocked-recv")
 			e.startPanic(st, &Iface{T: runtimeErrorType, V: e.ConcStr("blocked forever on channel receive")}, "blocked forever on channel receive")
 			return nil, true
 		}
 		val := cv.Q[0]
 		st.setObj(ch.Obj, &ChanV{Q: append([]Value{}, cv.Q[1:]...), Cap: cv.Cap, Closed: cv.Closed})
+		e.schedChanOp(st)
 		if x.CommaOk {
 			return &TupleV{E: []Value{val, c.True}}, false
 		}
@@ -2080,6 +2096,7 @@ func (e *Exec) selectOp(st *State, fr *Frame, x *ssa.Select) (Value, bool) {
 			return nil, true
 		}
 	}
+	e.schedChanOp(st)
 	for i, s := range x.States {
 		ch := e.get(st, fr, s.Chan).(*ChanRef)
 		if ch.Obj < 0 {
